@@ -285,6 +285,8 @@ pub struct Driver {
     runner: TestRunner,
     failed_sigs: BTreeSet<String>,
     pub stopped: bool,
+    /// cap on judge calls spent shrinking one failure (lower it for expensive judges)
+    pub max_shrink: u32,
     stream: String,
 }
 
@@ -298,7 +300,7 @@ impl Driver {
             ..Config::default()
         };
         let rng = TestRng::from_seed(RngAlgorithm::ChaCha, &ctx.stream_seed(stream));
-        Driver { runner: TestRunner::new_with_rng(config, rng), failed_sigs: BTreeSet::new(), stopped: false, stream: stream.to_string() }
+        Driver { runner: TestRunner::new_with_rng(config, rng), failed_sigs: BTreeSet::new(), stopped: false, max_shrink: 1000, stream: stream.to_string() }
     }
 
     /// Generate one value of `strat` and judge it.
@@ -336,7 +338,7 @@ impl Driver {
             }
             loop {
                 iters += 1;
-                if iters > 1000 {
+                if iters > self.max_shrink {
                     break 'shrink;
                 }
                 let cand = tree.current();
@@ -381,6 +383,9 @@ pub fn drive<T, S>(
     S: Strategy<Value = T>,
 {
     let mut d = Driver::new(ctx, stream);
+    if let Ok(v) = std::env::var("VERIF_MAX_SHRINK") {
+        d.max_shrink = v.parse().unwrap_or(1000);
+    }
     for _ in 0..cases {
         if d.stopped {
             break;
